@@ -141,9 +141,18 @@ type result struct {
 	Samples []string
 }
 
+const c06Keys = `^isolation-`
+const c03Keys = `^(acknowledged-write-lost|recovered-contents-match-no-prefix|wrong-outcome)$`
+
 func main() {
 	world.Quiet()
 	if len(os.Args) > 2 && os.Args[1] == "--replay" {
+		switch ev.PartOf(os.Args[2]) {
+		case "C06":
+			ev.ReplayPart("C04", os.Getenv("VERIF_BIN_C06"), c06Keys, os.Args[2], "VERIF_PART_PHASES=groups")
+		case "C03":
+			ev.ReplayPart("C04", os.Getenv("VERIF_BIN_C03"), c03Keys, os.Args[2], "VERIF_PART_MODE=replicas", "VERIF_TUNABLE_snapshotOffset=0")
+		}
 		var f struct {
 			Replay struct {
 				Ops []partlib.Op `json:"ops"`
@@ -157,7 +166,7 @@ func main() {
 		partlib.MBMetas()
 		_, k, d := build(f.Replay.Ops)
 		if k != "" {
-			fmt.Printf("VIOLATION property=C04 replay=%s\n  %s: %s\n", os.Args[2], k, d)
+			fmt.Printf("VIOLATION property=%s replay=%s\n  %s: %s\n", ev.As("C04"), os.Args[2], k, d)
 			os.Exit(1)
 		}
 		fmt.Println("replay: property held")
@@ -234,6 +243,12 @@ func main() {
 		}
 		return nil
 	})
+	// "restarted and replayed": the replica re-reads its own group's log from the database it shares with the node's other
+	// partitions - C06's multi-group phase counts here for its isolation clauses
+	run.RunPart("log-isolation-C06", os.Getenv("VERIF_BIN_C06"), c06Keys, "VERIF_PART_PHASES=groups")
+	// the same comparison on replicas fed by the real raft ready loop (three replicas, local snapshots, a lagging follower
+	// that installs a snapshot, crash + restart + replay): C03's three-replica histories, counted here for what a replica holds
+	run.RunPart("raft-fed-replicas-C03", os.Getenv("VERIF_BIN_C03"), c03Keys, "VERIF_PART_MODE=replicas", "VERIF_TUNABLE_snapshotOffset=0")
 	run.Assumptions = []string{
 		"the C02 alphabet (ids {a,b,c}, 3 vectors, 5 metadata shapes, single and batch forms); entries are marshalled once and fed byte-identically to every replica",
 		"graph shape is not compared (legitimately order dependent); contents, counters and per-entry outcomes are",
